@@ -239,6 +239,14 @@ theorem rebuild_verifies (C : CommitMethod) (hC : wfCommit C = true) (W : List C
   rw [(acked_survive C hC W hW k j).1]
   exact spec_closed_reaches dep W hW hdep _
 
+/-- the hypothesis `Causal` can be *computed* for a concrete workload: the executable `causalCheck` (run by the
+    driver on the insert order observed from the real PseudonymManager in every manager run) is sound -/
+theorem causal_check_sound (dep : Nat → Nat → Option (Nat × Nat)) (W : List Call)
+    (h : causalCheck dep W = true) : Causal dep W := by
+  intro i c hi row hrow d hd
+  have := causalCheckFrom_sound dep W [] (by simpa [causalCheck, spec, specFrom] using h) i c hi row hrow d hd
+  simpa using this
+
 /-- non-vacuity of `Causal`: token 1 (genesis), token 2 → token 1, metadata 5 → token 2 -/
 example : Causal (fun t k => if t = 0 ∧ k = 2 then some (0, 1) else if t = 1 ∧ k = 5 then some (0, 2) else none)
     [⟨0, [.exec 0 .orIgnore, .callCommit, .ret], 1, 10⟩, ⟨1, [.exec 0 .orIgnore, .callCommit, .ret], 2, 20⟩,
